@@ -14,6 +14,25 @@ CHECKS = {
         technique='contract-based deductive verification: VCs generated from the Python AST of the real functions against sidecar '
                   'contracts, discharged by z3/cvc5; native replay of counter-models',
         design_ref='6 (C09)'),
+    'C12': dict(
+        category='proof',
+        text='String2Key.derive_key is symbolically executed from the real source for each of the 3 specifiers x 7 hashes x 3 key sizes '
+             '(configuration read from the enum tables in the AST) with salt, passphrase and coded count symbolic: number of contexts, '
+             'i zero octets preloaded in context i, stream length max(count, L), stream octet j = material[j mod L] (lowered, nonlinear), '
+             'key = truncated digest concatenation, no exception (ZeroDivisionError). The 256-value coded-count decoder is proved too.',
+        note=TB + '; hashlib is an uninterpreted external with the incremental-update law only',
+        technique='contract-based deductive verification: VCs from the Python AST against RFC 4880 3.7.1, z3/cvc5; runtime-contract sweep '
+                  'against an independent hashlib implementation as bounded complement',
+        design_ref='6 (C12)'),
+    'C17': dict(
+        category='proof',
+        text='causes_signature_verify_to_fail is proved equal to the mask test over all 2^11 issue sets; SignatureVerification.__bool__/'
+             'good/bad/__len__ proved coherent for 0..3 fully symbolic entries; the verdict block of PGPKey.verify (detached signature) is '
+             'executed with callee contracts as hooks: exactly one entry per examined pair, disqualifying issues kept, otherwise the '
+             'cryptographic check is called and decides, delegation only to the named subkey.',
+        note=TB + '; the aggregate methods are element-wise filters proved for list lengths 0..3, not by induction',
+        technique='contract-based deductive verification: VCs from the Python AST, callee contracts as hooks, z3/cvc5',
+        design_ref='6 (C17)'),
 }
 
 PENDING_REASON = 'check under construction in this session: no contract-based check is registered yet (see DESIGN.md section 6 for the plan)'
